@@ -4,28 +4,8 @@ package main
 
 import (
 	"encoding/base64"
-	"os"
-	"testing"
 )
 
-// TestVerifDriver is the single entry point of the whole-proxy verification driver; the
-// property to explore is selected by VERIF_PROP (see /verif/check).
-func TestVerifDriver(t *testing.T) {
-	prop := os.Getenv("VERIF_PROP")
-	if prop == "" {
-		t.Skip("VERIF_PROP not set")
-	}
-	out := vOpen()
-	defer out.Close()
-	f, ok := vDrivers[prop]
-	if !ok {
-		t.Fatalf("no driver for %s", prop)
-	}
-	f(t, out)
-}
-
-var vDrivers = map[string]func(*testing.T, *vEmitter){}
+var vB64URL = base64.URLEncoding
 
 func encodeURL(b []byte) string { return vB64URL.EncodeToString(b) }
-
-var vB64URL = base64.URLEncoding
